@@ -16,6 +16,10 @@ from vlib import Check, ToolError
 PROP = "C10"
 
 
+def ident_key(x):
+    return x.replace("r#", "").replace("_", "").lower()
+
+
 def expand(s):
     return payload.ATOMS.get(s, s)
 
@@ -140,6 +144,12 @@ def main(tier, replay=None, selftest=False):
                                  "C10: enum %s (normalization %s): %r deserialises to %s, expected %s" % (
                                      sorted(c["values"]), norm, v[:40], "Other(..)" if is_other else "variant " + str(var),
                                      "its own variant" if c["expect"][s] == "variant" else "Other(..)"), case_key=key)
+                elif c["expect"][s] == "variant" and var is not None and ident_key(var) != ident_key(v):
+                    # "its own variant": the variant is named after THIS value (up to case, underscores and keyword
+                    # escaping - whatever the naming scheme), not after a sibling value
+                    ck.violation(name, dict(rep, observed_variant=var),
+                                 "C10: enum %s (normalization %s): %r deserialises to variant %s, which is named after another value" % (
+                                     sorted(c["values"]), norm, v[:40], var), case_key=key + "|identity")
             # distinct values -> distinct variants (same payload position, different strings): via Debug names
         else:
             got = (o.get("ok") or {}).get("variables") if "ok" in o else None
